@@ -357,4 +357,33 @@ def iosPlatforms (release probeMultiarch : Str) (version : Option (Nat × Nat)) 
   | .error e => .error e
   | .ok v => iosPlatformsL v (match multiarch with | some m => m | none => probeMultiarch)
 
+/-! ## `platform_tags()` (x6: the dispatch on `platform.system()`, extracted so that the translated source has a model to equal) -/
+
+/-- `_generic_platforms()` -/
+def genericPlatforms (getPlatform : Str) : List Str := [normalizeString getPlatform]
+
+/-- every probe `platform_tags()` can reach -/
+structure PCfg where
+  /-- `platform.system()` -/
+  system : Str
+  /-- `sysconfig.get_platform()` -/
+  getPlatform : Str
+  /-- `_32_BIT_INTERPRETER` -/
+  is32 : Bool
+  linux : LCfg
+  /-- `platform.mac_ver()` = `(macVerStr, _, macCpu)`; stdout of the `SYSTEM_VERSION_COMPAT=0` subprocess -/
+  macVerStr : Str
+  macCpu : Str
+  macCompat0 : Str
+  /-- `platform.ios_ver().release`, `sys.implementation._multiarch` -/
+  iosRelease : Str
+  iosMultiarch : Str
+
+/-- `tags.platform_tags()` -/
+def platformTags (p : PCfg) : Except String (List Str) :=
+  if p.system == sDarwin then macPlatforms p.macVerStr p.macCpu p.macCompat0 p.is32 none none
+  else if p.system == sIOS then iosPlatforms p.iosRelease p.iosMultiarch none none
+  else if p.system == sLinux then .ok (linuxPlatforms p.linux p.getPlatform p.is32)
+  else .ok (genericPlatforms p.getPlatform)
+
 end Plat
